@@ -107,6 +107,9 @@ def run(tier):
             if not rr["ok"] or [rr["maj"], rr["min"]] != list(val):
                 check.violation({"class": "version-string", "shape": "digits.digits"},
                                 {"string": text, "spec_value": val, "observed": rr})
+            elif rr.get("again_ok") is False or [rr.get("again_maj"), rr.get("again_min")] != list(val):
+                check.violation({"class": "version-string-depends-on-history"},
+                                {"string": text, "spec_value": val, "second_parse_after_the_caller_changed_the_first_result": rr})
             else:
                 good.append((text, tuple(val)))
         elif rr["ok"]:
